@@ -484,3 +484,54 @@ def _v(ctx: Ctx, fn: FuncInfo, okk: bool, inst: str, e: Event, msg: str) -> None
         ctx.ok("R-SPLIT", inst)
     else:
         ctx.violation("R-SPLIT", fn.path, "Problem.split", inst.split(":")[0].replace(" ", "-"), f"{fn.path}:{e.line}", msg)
+
+
+# ------------------------------------------------------------------------------------------ R-OPTIONAL-ZERO
+def rule_optional_zero(ctx: Ctx, prog: Program) -> None:
+    """An optional integer argument of the model API (`dom_index: Optional[int] = None`, a shared-domain index or an offset) has 0 among its
+    valid values.  Resolving 'not given' by truthiness (`x or default`, `if not x`, `if x`) treats the valid value 0 as absent: a variable
+    declared on shared domain 0 silently gets a private domain, an offset 0 ... Rule: an Optional[int] parameter is only ever tested with
+    `is None` / `is not None`."""
+    ctx.rule("R-OPTIONAL-ZERO")
+    n = 0
+    for f in prog.all_functions():
+        if not (f.module.startswith(f"{prog.package}.problems") or f.module.startswith(f"{prog.package}.solvers")):
+            continue
+        a = f.node.args
+        ps = a.posonlyargs + a.args + a.kwonlyargs
+        opt_int = set()
+        for p in ps:
+            ann = ast.unparse(p.annotation) if p.annotation is not None else ""
+            if ann.replace(" ", "") in ("Optional[int]", "int|None", "None|int", "Union[int,None]"):
+                opt_int.add(p.arg)
+        if not opt_int:
+            continue
+        # the parameter may be re-bound after its 'is None' resolution; only uses before the first assignment to it are concerned
+        for node in ast.walk(f.node):
+            bad = None
+            if isinstance(node, ast.BoolOp) and isinstance(node.op, ast.Or) and isinstance(node.values[0], ast.Name) and node.values[0].id in opt_int:
+                bad = (node.values[0].id, f"`{ast.unparse(node)}`")
+            if isinstance(node, (ast.If, ast.IfExp, ast.While)):
+                t = node.test
+                if isinstance(t, ast.UnaryOp) and isinstance(t.op, ast.Not):
+                    t = t.operand
+                if isinstance(t, ast.Name) and t.id in opt_int:
+                    bad = (t.id, f"`{ast.unparse(node.test)}` used as a test")
+            if bad and not _assigned_before(f.node, bad[0], node.lineno):
+                ctx.violation("R-OPTIONAL-ZERO", f.path, f.qualname, f"truthiness:{bad[0]}", f"{f.path}:{node.lineno}",
+                              f"{f.qualname} resolves its optional integer argument '{bad[0]}' by truthiness ({bad[1]}): the valid value 0 "
+                              "(first shared domain, null offset, variable 0) is treated as 'not given'")
+        for p in sorted(opt_int):
+            n += 1
+            ctx.ok("R-OPTIONAL-ZERO", f"{f.qualname}: optional integer '{p}' is only tested with `is None`", nontrivial=False)
+    ctx.floor("R-OPTIONAL-ZERO:optional-int-parameters", n, 2)
+
+
+def _assigned_before(fn: ast.FunctionDef, name: str, line: int) -> bool:
+    for n in ast.walk(fn):
+        if isinstance(n, ast.Assign) and getattr(n, "end_lineno", n.lineno) < line and any(isinstance(t, ast.Name) and t.id == name for t in n.targets) \
+                and not isinstance(n.value, ast.BoolOp):
+            # re-bound unconditionally at function level?
+            if n in fn.body:
+                return True
+    return False
